@@ -1,6 +1,7 @@
 mod c04;
 mod c12;
 mod c13;
+mod c14;
 mod c15;
 mod c20;
 mod coqfmt;
@@ -32,6 +33,8 @@ fn main() {
         "c04" => c04::run(&out, seed, thorough),
         "c12" => c12::run(&out, seed, thorough),
         "c13" => c13::run(&out, seed, thorough),
+        "c14" => c14::run(&out, seed, thorough),
+        "c14-probe" => c14::probe_main(),
         "c15" => c15::run(&out, seed, thorough),
         "c20" => c20::run(&out, seed, thorough),
         "simcheck" | "simcheck-worker" | "simprobe" | "simreplay" => simcheck::main(&cmd, &args, &out, seed, thorough),
